@@ -14,7 +14,7 @@ import (
 	"verif/harness/spec"
 )
 
-var c09Endings = []string{"disconnect", "abrupt", "keepalive", "reserved-type", "bad-flags", "read-error", "oversized"}
+var c09Endings = []string{"disconnect", "abrupt", "keepalive", "reserved-type", "bad-flags", "read-error", "oversized", "disconnect-with-eof", "ping-with-eof"}
 
 type willSpec struct {
 	present bool
@@ -103,6 +103,12 @@ func c09History(t *testing.T, idx int, seed uint64) {
 				cc.FailReadAfter = connectLen + int64(r.Intn(6)) // fails on a later read
 				srv = cc
 			}
+			var eofc *chaos.EOFConn
+			if ending == "disconnect-with-eof" || ending == "ping-with-eof" {
+				// a transport that hands out the last bytes together with io.EOF (as crypto/tls does)
+				eofc = chaos.NewEOFConn(sside)
+				srv = eofc
+			}
 			w.serveConn(srv)
 			w.conns = append(w.conns, cside)
 			c := &bclient{Client: rawclient.New("victim", cside, nil), name: "victim", subs: map[string]byte{}}
@@ -124,6 +130,18 @@ func c09History(t *testing.T, idx int, seed uint64) {
 				c.SendPacket(&rc.Packet{Type: rc.DISCONNECT})
 				settle()
 				c.Close()
+			case "disconnect-with-eof", "ping-with-eof":
+				// the final packet and the close reach the broker in one Read that returns (n, io.EOF)
+				eofc.Hold()
+				if ending == "disconnect-with-eof" {
+					c.SendPacket(&rc.Packet{Type: rc.DISCONNECT})
+				} else {
+					c.SendPacket(&rc.Packet{Type: rc.PINGREQ})
+				}
+				c.Flush()
+				c.Close()
+				settle()
+				eofc.Release()
 			case "abrupt":
 				c.Close()
 			case "keepalive":
@@ -139,7 +157,7 @@ func c09History(t *testing.T, idx int, seed uint64) {
 				c.Send(append([]byte{0x30}, rc.AppendVarint(nil, 1<<20)...))
 			}
 			settle()
-			if ending != "disconnect" && ending != "abrupt" && !c.Closed() {
+			if ending != "disconnect" && ending != "abrupt" && ending != "disconnect-with-eof" && ending != "ping-with-eof" && !c.Closed() {
 				fail("c09:not-closed:"+ending, fmt.Sprintf("connection still open after %s", ending))
 				c.Close()
 				settle()
@@ -155,7 +173,7 @@ func c09History(t *testing.T, idx int, seed uint64) {
 			}
 			// what did the witness see?
 			got := publishesIn(wit.fresh())
-			wantWill := ws.present && ending != "disconnect"
+			wantWill := ws.present && ending != "disconnect" && ending != "disconnect-with-eof"
 			var mine []delivered
 			for _, d := range got {
 				mine = append(mine, d)
